@@ -15,7 +15,7 @@ func init() {
 		ID: "C11",
 		Explanation: "Decides structural necessary conditions of C11: (R-C11-1) in Store.poll every iteration over the snapshot either issues GetIfChanged for that name or takes a skip path whose deciding condition depends (data/control dependence, through the snapshot's struct field and module callees) on a comma-ok read of the handle map Store.active.f: the store may only skip what it is going to forget, and it never forgets a name that has a handle; " +
 			"(R-C11-2) poll errors abort before applying: applyUpdates is edge-dominated by the nil edge of poll, every GetIfChanged error other than ErrValueNotChanged flows into the returned errors.Join, the refresh closure reports both failures; (R-C11-3) pairing: the name fetched, the version sent and the key written to the update set are the same snapshot entry, and apply installs updates[name] under name; " +
-			"(R-C11-4) apply happens in one critical section followed by a cache flush; (R-C11-5) single-flight keys are the constant \"poll\" or \"lookup:\"+name (disjoint families) and Refresh is the only route to poll/applyUpdates; (R-C11-7) cadence: the poller waits on one ticker created with interval plus a jitter of at most a tenth of the interval either way, and nothing resets that ticker; (R-C11-6) poll itself writes nothing to the active set, so a failed poll leaves every old value in place.",
+			"(R-C11-8) a successful answer whose version differs from the held one reaches the update set on every path (path search with the == edge of the version comparison removed: an ordering test such as > leaves a path and is reported), and the poll loop has no early exit that lets poll return nil with names unvisited; (R-C11-4) apply happens in one critical section followed by a cache flush; (R-C11-5) single-flight keys are the constant \"poll\" or \"lookup:\"+name (disjoint families) and Refresh is the only route to poll/applyUpdates; (R-C11-7) cadence: the poller waits on one ticker created with interval plus a jitter of at most a tenth of the interval either way, and nothing resets that ticker; (R-C11-6) poll itself writes nothing to the active set, so a failed poll leaves every old value in place.",
 		NotDecided:  "Freshness against the service's history; poll cadence +/-10% (arithmetic on a random value); convergence after failures.",
 		Trusted:     append([]string{"singleflight.Group runs one function per key at a time and hands every waiter its result", "errors.Join is nil iff all elements are nil"}, commonTrusted...),
 		Assumptions: []string{},
@@ -180,6 +180,123 @@ func c11Poll(c *eng.Ctx, poll *ssa.Function) {
 		got, idx := eng.TupleCall(mu.Value)
 		c.Check(eng.Origin(mu.Key) == loop.Key && got == fetch && idx == 0, "R-C11-3", poll, in.Pos(), eng.InstrStr(in), "the value recorded for a name is the one fetched for that name in this iteration", "")
 	})
+
+	// R-C11-8: a successful answer carrying a version different from the held
+	// one is always recorded (no ordering test, no other way round it)
+	{
+		ferr := saveErr(fetch)
+		isVer := func(v ssa.Value) int { // 1 = fetched Version, 2 = held version
+			fr, base, isF := eng.LoadedField(v)
+			if !isF {
+				if cv, ok := eng.Origin(v).(*ssa.Convert); ok {
+					fr, base, isF = eng.LoadedField(cv.X)
+				}
+			}
+			if !isF {
+				return 0
+			}
+			if fr.Name == "Version" {
+				if call, idx := eng.TupleCall(base); call == fetch && idx == 0 {
+					return 1
+				}
+			}
+			if fr.Name == "version" && (eng.Origin(base) == loop.Val || isCellOf(base, loop.Val)) {
+				return 2
+			}
+			return 0
+		}
+		differ := func(b *ssa.BasicBlock, i int) bool {
+			ifi, ok := b.Instrs[len(b.Instrs)-1].(*ssa.If)
+			if !ok {
+				return true
+			}
+			cd := eng.CondOf(ifi.Cond, i == 0)
+			if call, _, truth, isCall := cd.BoolCall(); isCall && (eng.CalleeIs(&call.Call, "errors", "Is") || eng.CalleeIs(&call.Call, "errors", "As")) && eng.Same(call.Call.Args[0], ferr) {
+				return !truth // errors.Is(nil, x) is false
+			}
+			op, x, y, isCmp := cd.Cmp()
+			if !isCmp || isVer(x)*isVer(y) != 2 {
+				return true
+			}
+			return op != token.EQL // versions differ: the == edge is infeasible, every other is possible
+		}
+		recorded := func(in ssa.Instruction) bool {
+			mu, ok := in.(*ssa.MapUpdate)
+			if !ok {
+				return false
+			}
+			got, idx := eng.TupleCall(mu.Value)
+			return got == fetch && idx == 0
+		}
+		hit, path := eng.Search(poll, fetch, eng.AndFilters(eng.AssumeErr(ferr, true), differ), recorded, func(x ssa.Instruction) bool {
+			return eng.IsReturn(x) || x.Block() == loop.Header
+		})
+		c.Check(hit == nil, "R-C11-8", poll, fetch.Pos(), "answer of "+eng.CallStr(&fetch.Call), "an answer whose version differs from the held one is recorded for installation on every path (also when the service's active version moved backwards)", func() string {
+			if hit == nil {
+				return ""
+			}
+			return "with err == nil and got.Version != held version the next iteration / return is reached without recording the answer: " + p.PathStr(path)
+		}())
+	}
+
+	// R-C11-1 early exits: leaving the loop from inside its body abandons the
+	// names not visited yet; that is acceptable only if poll then fails.
+	{
+		inLoop := map[*ssa.BasicBlock]bool{loop.Header: true}
+		for _, b := range poll.Blocks {
+			if !loop.Body.Dominates(b) || len(b.Instrs) == 0 {
+				continue
+			}
+			if hit, _ := eng.SearchBlock(poll, b, nil, nil, func(x ssa.Instruction) bool { return x.Block() == loop.Header }); hit != nil {
+				inLoop[b] = true
+			}
+		}
+		normalRet := map[ssa.Instruction]bool{}
+		if loop.Done != nil && len(loop.Done.Instrs) > 0 {
+			for _, r := range eng.Returns(poll) {
+				if hit, _ := eng.SearchBlock(poll, loop.Done, nil, nil, func(x ssa.Instruction) bool { return x == ssa.Instruction(r) }); hit != nil {
+					normalRet[r] = true
+				}
+			}
+		}
+		n := 0
+		for _, b := range poll.Blocks {
+			if !inLoop[b] || b == loop.Header {
+				continue
+			}
+			for _, s2 := range b.Succs {
+				if inLoop[s2] || len(s2.Instrs) == 0 {
+					continue
+				}
+				n++
+				site := "exit from the poll loop at " + p.Pos(b.Instrs[len(b.Instrs)-1].Pos())
+				bad := ""
+				for _, r := range eng.Returns(poll) {
+					if hit, _ := eng.SearchBlock(poll, s2, nil, nil, func(x ssa.Instruction) bool { return x == ssa.Instruction(r) }); hit == nil {
+						continue
+					}
+					rv := eng.RetVals(r)
+					if normalRet[r] {
+						bad = "reaches the ordinary return " + eng.InstrStr(r) + " (nil when no error was recorded so far)"
+					} else if len(rv) > 0 && eng.IsNilConst(eng.Origin(rv[0])) {
+						bad = "returns nil"
+					}
+				}
+				if bad != "" {
+					// an error appended to the joined slice just before leaving makes poll fail
+					for _, in := range b.Instrs {
+						if args, ok := eng.BuiltinCall(in, "append"); ok && len(args) == 2 && eng.IsErrorSlice(args[0].Type()) {
+							bad = ""
+						}
+					}
+				}
+				c.Check(bad == "", "R-C11-1", poll, b.Instrs[len(b.Instrs)-1].Pos(), site, "the loop over the known names is left early only on a path on which poll reports failure (the names not yet visited were not refreshed)", bad)
+			}
+		}
+		if n == 0 {
+			c.Ok("R-C11-1", poll, loop.Next.Pos(), "exits of the poll loop", "only the exhausted-iterator exit")
+		}
+	}
 
 	// R-C11-1 skip paths
 	isFetch := func(in ssa.Instruction) bool { return in == ssa.Instruction(fetch) }
@@ -562,6 +679,7 @@ func c11Keys(c *eng.Ctx, refresh, poll, apply *ssa.Function) {
 	if n < 2 {
 		c.Undecided("R-C11-5", nil, 0, "single-flight call sites", "fewer than 2 found")
 	}
+	noForget(c, "R-C11-5")
 	// Refresh is the only route to poll/applyUpdates
 	for _, target := range []*ssa.Function{poll, apply} {
 		for _, e := range p.CallGraph().CallersOf(target) {
